@@ -822,7 +822,7 @@ func ruleIntrospectionSources(r *Run) {
 				"the argument is evaluated through Value(vars)", "an argument of an introspection field is read through .Raw: for a variable that is the variable's *name*, so the request is answered as if a different value had been given")
 		}
 	}
-	r.AtLeast(rule, "query-field argument reads in the resolver", n, 3)
+	r.AtLeast(rule, "query-field argument reads in the resolver", n, 2)
 	// R3b: no writes to Gateway state on the request path
 	h := r.Anchor("R3b", "pebbles.(*Gateway).Handler")
 	if h == nil {
